@@ -6,6 +6,99 @@ Open Scope string_scope.
 Open Scope list_scope.
 Open Scope N_scope.
 
+Section CV.
+Variable cv : variant.
+Local Notation is_simple_id := (SmtSer.is_simple_id cv) (only parsing).
+Local Notation escape_id := (SmtSer.escape_id cv) (only parsing).
+Local Notation ser := (SmtSer.ser cv) (only parsing).
+Local Notation ser_cmd := (SmtSer.ser_cmd cv) (only parsing).
+Local Notation name_ok := (SmtSer.name_ok cv) (only parsing).
+Local Notation declared := (SmtSer.declared cv) (only parsing).
+Local Notation symbols_declared := (SmtSer.symbols_declared cv) (only parsing).
+Local Notation lx_go := (SmtLex.lx_go cv) (only parsing).
+Local Notation lex_impl := (SmtLex.lex_impl cv) (only parsing).
+Local Notation early_other := (SmtParse.early_other cv) (only parsing).
+Local Notation early_parse := (SmtParse.early_parse cv) (only parsing).
+Local Notation step := (SmtParse.step cv) (only parsing).
+Local Notation run := (SmtParse.run cv) (only parsing).
+Local Notation parse_eot := (SmtParse.parse_eot cv) (only parsing).
+Local Notation parse_expr_internal := (SmtParse.parse_expr_internal cv) (only parsing).
+Local Notation parse_type := (SmtParse.parse_type cv) (only parsing).
+Local Notation parse_expr_toks := (SmtParse.parse_expr_toks cv) (only parsing).
+Local Notation parse_expr_str := (SmtParse.parse_expr_str cv) (only parsing).
+Local Notation skip_expr := (SmtParse.skip_expr cv) (only parsing).
+Local Notation parse_get_value_response_toks := (SmtParse.parse_get_value_response_toks cv) (only parsing).
+Local Notation parse_get_value_response_str := (SmtParse.parse_get_value_response_str cv) (only parsing).
+Local Notation parse_expr_list_go := (SmtParse.parse_expr_list_go cv) (only parsing).
+Local Notation parse_expr_list_rest := (SmtParse.parse_expr_list_rest cv) (only parsing).
+Local Notation parse_unsat_assumptions_toks := (SmtParse.parse_unsat_assumptions_toks cv) (only parsing).
+Local Notation parse_unsat_assumptions_str := (SmtParse.parse_unsat_assumptions_str cv) (only parsing).
+Local Notation parse_command_body := (SmtParse.parse_command_body cv) (only parsing).
+Local Notation parse_command_toks := (SmtParse.parse_command_toks cv) (only parsing).
+Local Notation parse_command_str := (SmtParse.parse_command_str cv) (only parsing).
+Local Notation count_parens := (SmtParse.count_parens cv) (only parsing).
+Local Notation rc_balance := (SmtParse.rc_balance cv) (only parsing).
+Local Notation read_command := (SmtParse.read_command cv) (only parsing).
+Local Notation is_simple_id_loop := (SmtSerLemmas.is_simple_id_loop cv) (only parsing).
+Local Notation is_simple_id_chars := (SmtSerLemmas.is_simple_id_chars cv) (only parsing).
+Local Notation is_simple_id_first := (SmtSerLemmas.is_simple_id_first cv) (only parsing).
+Local Notation escape_sound_gen := (SmtSerLemmas.escape_sound_gen cv) (only parsing).
+Local Notation escape_sound_lemma := (SmtSerLemmas.escape_sound_lemma cv) (only parsing).
+Local Notation good := (SmtSerProofs.good cv) (only parsing).
+Local Notation symbols_declared_app := (SmtSerProofs.symbols_declared_app cv) (only parsing).
+Local Notation name_ok_facts := (SmtSerProofs.name_ok_facts cv) (only parsing).
+Local Notation symbol_good := (SmtSerProofs.symbol_good cv) (only parsing).
+Local Notation ser_core := (SmtSerProofs.ser_core cv) (only parsing).
+Local Notation ser_eq := (SmtSerProofs.ser_eq cv) (only parsing).
+Local Notation core_good := (SmtSerProofs.core_good cv) (only parsing).
+Local Notation wrap_good_e := (SmtSerProofs.wrap_good_e cv) (only parsing).
+Local Notation ser_good := (SmtSerProofs.ser_good cv) (only parsing).
+Local Notation ser_sorted_sound_lemma := (SmtSerProofs.ser_sorted_sound_lemma cv) (only parsing).
+Local Notation name_ok_intro := (SmtSerProofs.name_ok_intro cv) (only parsing).
+Local Notation noop_slice_latent := (SmtSerProofs.noop_slice_latent cv) (only parsing).
+Local Notation cont := (SmtParseProofs.cont cv) (only parsing).
+Local Notation runs_to := (SmtParseProofs.runs_to cv) (only parsing).
+Local Notation run_cons := (SmtParseProofs.run_cons cv) (only parsing).
+Local Notation cont_nonempty := (SmtParseProofs.cont_nonempty cv) (only parsing).
+Local Notation run_items := (SmtParseProofs.run_items cv) (only parsing).
+Local Notation run_group := (SmtParseProofs.run_group cv) (only parsing).
+Local Notation runs_value := (SmtParseProofs.runs_value cv) (only parsing).
+Local Notation runs_escaped := (SmtParseProofs.runs_escaped cv) (only parsing).
+Local Notation atom_item := (SmtParseProofs.atom_item cv) (only parsing).
+Local Notation sxi := (SmtParseProofs.sxi cv) (only parsing).
+Local Notation sxi_list := (SmtParseProofs.sxi_list cv) (only parsing).
+Local Notation sxi_list_eq := (SmtParseProofs.sxi_list_eq cv) (only parsing).
+Local Notation machine_sx := (SmtParseProofs.machine_sx cv) (only parsing).
+Local Notation early_plain := (SmtParseProofs.early_plain cv) (only parsing).
+Local Notation early_other_lookup := (SmtParseProofs.early_other_lookup cv) (only parsing).
+Local Notation early_other_kw := (SmtParseProofs.early_other_kw cv) (only parsing).
+Local Notation simple_plain := (SmtParseProofs.simple_plain cv) (only parsing).
+Local Notation table_for := (SmtParseProofs.table_for cv) (only parsing).
+Local Notation keys_ok := (SmtParseProofs.keys_ok cv) (only parsing).
+Local Notation theory_not_ok := (SmtParseProofs.theory_not_ok cv) (only parsing).
+Local Notation atom_head := (SmtParseProofs.atom_head cv) (only parsing).
+Local Notation simple_not_kw := (SmtParseProofs.simple_not_kw cv) (only parsing).
+Local Notation atom_symbol := (SmtParseProofs.atom_symbol cv) (only parsing).
+Local Notation head_item := (SmtRoundTrip.head_item cv) (only parsing).
+Local Notation numeral_item := (SmtRoundTrip.numeral_item cv) (only parsing).
+Local Notation bitvec_item := (SmtRoundTrip.bitvec_item cv) (only parsing).
+Local Notation elem_item := (SmtRoundTrip.elem_item cv) (only parsing).
+Local Notation ser_type_arr_item := (SmtRoundTrip.ser_type_arr_item cv) (only parsing).
+Local Notation syms_in := (SmtRoundTrip.syms_in cv) (only parsing).
+Local Notation lit_item := (SmtRoundTrip.lit_item cv) (only parsing).
+Local Notation sxi_wrap := (SmtRoundTrip.sxi_wrap cv) (only parsing).
+Local Notation early_bits := (SmtRoundTrip.early_bits cv) (only parsing).
+Local Notation early_zeros := (SmtRoundTrip.early_zeros cv) (only parsing).
+Local Notation sxi_ser := (SmtRoundTrip.sxi_ser cv) (only parsing).
+Local Notation parse_ser_lemma := (SmtRoundTrip.parse_ser_lemma cv) (only parsing).
+Local Notation run_state := (SmtRoundTrip.run_state cv) (only parsing).
+Local Notation end_of_tokens := (SmtRoundTrip.end_of_tokens cv) (only parsing).
+Local Notation run_app_state := (SmtRoundTrip.run_app_state cv) (only parsing).
+Local Notation run_nil := (SmtRoundTrip.run_nil cv) (only parsing).
+Local Notation truncated_lemma := (SmtRoundTrip.truncated_lemma cv) (only parsing).
+Local Notation trailing_token_error_lemma := (SmtRoundTrip.trailing_token_error_lemma cv) (only parsing).
+
+
 (** ** the lexer on printed tokens *)
 
 Lemma srev_app_app s acc t : srev_app (srev_app s acc) t = srev_app acc (String.append s t).
@@ -39,12 +132,12 @@ Lemma lx_token_run s acc rest out :
   lx_go XSearching rest (TkValue (srev_app acc s) :: out).
 Proof.
   revert acc. induction s as [|d r IH]; intros acc Hs.
-  - cbn [String.append lx_go]. change (lx_token_end " ") with true. cbv iota.
+  - cbn [String.append SmtLex.lx_go]. change (lx_token_end " ") with true. cbv iota.
     unfold lx_search. change (Ascii.eqb " " c_bar) with false. change (Ascii.eqb " " c_open) with false.
     change (Ascii.eqb " " c_close) with false. change (lx_ws " ") with true. cbv iota.
     unfold srev. reflexivity.
   - cbn [str_forall] in Hs. apply andb_true_iff in Hs. destruct Hs as [Hd Hr].
-    cbn [String.append lx_go]. unfold tok_char in Hd. apply negb_true_iff in Hd. rewrite Hd.
+    cbn [String.append SmtLex.lx_go]. unfold tok_char in Hd. apply negb_true_iff in Hd. rewrite Hd.
     rewrite (IH (String d acc) Hr). reflexivity.
 Qed.
 
@@ -68,9 +161,9 @@ Lemma lx_escaped_run b acc rest out :
   lx_go XSearching rest (TkEscaped (srev_app acc b) :: out).
 Proof.
   revert acc. induction b as [|d r IH]; intros acc Hs.
-  - cbn [String.append lx_go]. change (Ascii.eqb c_bar c_bar) with true. cbv iota. unfold srev. reflexivity.
+  - cbn [String.append SmtLex.lx_go]. change (Ascii.eqb c_bar c_bar) with true. cbv iota. unfold srev. reflexivity.
   - cbn [str_forall] in Hs. apply andb_true_iff in Hs. destruct Hs as [Hd Hr]. apply negb_true_iff in Hd.
-    cbn [String.append lx_go]. rewrite Hd. rewrite (IH (String d acc) Hr). reflexivity.
+    cbn [String.append SmtLex.lx_go]. rewrite Hd. rewrite (IH (String d acc) Hr). reflexivity.
 Qed.
 
 Lemma append_assoc a b c : String.append (String.append a b) c = String.append a (String.append b c).
@@ -81,26 +174,26 @@ Theorem lex_render ts :
   forall out, lx_go XSearching (render ts) out = rev out ++ map ltok_of ts.
 Proof.
   induction ts as [|t ts IH]; intros H out.
-  - cbn [render lx_go map]. now rewrite app_nil_r.
+  - cbn [render SmtLex.lx_go map]. now rewrite app_nil_r.
   - cbn [forallb] in H. apply andb_true_iff in H. destruct H as [Ht Hts].
     destruct t as [| | a]; cbn [render map ltok_of].
-    + cbn [lx_go]. unfold lx_search at 1. change (Ascii.eqb c_open c_bar) with false. change (Ascii.eqb c_open c_open) with true. cbv iota.
-      cbn [lx_go]. unfold lx_search at 1. change (Ascii.eqb " " c_bar) with false. change (Ascii.eqb " " c_open) with false.
+    + cbn [SmtLex.lx_go]. unfold lx_search at 1. change (Ascii.eqb c_open c_bar) with false. change (Ascii.eqb c_open c_open) with true. cbv iota.
+      cbn [SmtLex.lx_go]. unfold lx_search at 1. change (Ascii.eqb " " c_bar) with false. change (Ascii.eqb " " c_open) with false.
       change (Ascii.eqb " " c_close) with false. change (lx_ws " ") with true. cbv iota.
       rewrite (IH Hts). cbn [rev]. now rewrite <- app_assoc.
-    + cbn [lx_go]. unfold lx_search at 1. change (Ascii.eqb c_close c_bar) with false. change (Ascii.eqb c_close c_open) with false.
+    + cbn [SmtLex.lx_go]. unfold lx_search at 1. change (Ascii.eqb c_close c_bar) with false. change (Ascii.eqb c_close c_open) with false.
       change (Ascii.eqb c_close c_close) with true. cbv iota.
-      cbn [lx_go]. unfold lx_search at 1. change (Ascii.eqb " " c_bar) with false. change (Ascii.eqb " " c_open) with false.
+      cbn [SmtLex.lx_go]. unfold lx_search at 1. change (Ascii.eqb " " c_bar) with false. change (Ascii.eqb " " c_open) with false.
       change (Ascii.eqb " " c_close) with false. change (lx_ws " ") with true. cbv iota.
       rewrite (IH Hts). cbn [rev]. now rewrite <- app_assoc.
     + cbn [stok_lexable] in Ht. unfold lexable in Ht. destruct a as [|c r]; [discriminate|].
       unfold ltok_of_atom. destruct (Ascii.eqb_spec c c_bar) as [-> | Hnb].
       * destruct (quoted_body r) as [b|] eqn:Eb; [|discriminate].
         destruct (quoted_body_shape r b Eb) as [-> Hb].
-        cbn [String.append lx_go]. unfold lx_search at 1. change (Ascii.eqb c_bar c_bar) with true. cbv iota.
+        cbn [String.append SmtLex.lx_go]. unfold lx_search at 1. change (Ascii.eqb c_bar c_bar) with true. cbv iota.
         rewrite append_assoc. cbn [String.append].
         rewrite (lx_escaped_run b "" _ _ Hb).
-        cbn [lx_go]. unfold lx_search at 1. change (Ascii.eqb " " c_bar) with false. change (Ascii.eqb " " c_open) with false.
+        cbn [SmtLex.lx_go]. unfold lx_search at 1. change (Ascii.eqb " " c_bar) with false. change (Ascii.eqb " " c_open) with false.
         change (Ascii.eqb " " c_close) with false. change (lx_ws " ") with true. cbv iota.
         rewrite (IH Hts). cbn [rev srev_app]. now rewrite <- app_assoc.
       * rewrite !andb_true_iff, !negb_true_iff in Ht. destruct Ht as [[[Hc Hq] Hs] Hr].
@@ -108,13 +201,13 @@ Proof.
         assert (Hparts : Ascii.eqb c c_bar = false /\ Ascii.eqb c c_open = false /\ Ascii.eqb c c_close = false /\ lx_ws c = false).
         { unfold lx_token_end in Hc. rewrite !orb_false_iff in Hc. tauto. }
         destruct Hparts as (H1 & H2 & H3 & H4).
-        cbn [String.append lx_go]. unfold lx_search at 1. rewrite H1, H2, H3, H4, Hq, Hs.
+        cbn [String.append SmtLex.lx_go]. unfold lx_search at 1. rewrite H1, H2, H3, H4, Hq, Hs.
         rewrite (lx_token_run r (String c "") _ _ Hr).
         rewrite (IH Hts). cbn [rev srev_app]. now rewrite <- app_assoc.
 Qed.
 
 Theorem lex_print ts : forallb stok_lexable ts = true -> lex_impl (render ts) = map ltok_of ts.
-Proof. intros H. unfold lex_impl. now rewrite (lex_render ts H []). Qed.
+Proof. intros H. unfold SmtLex.lex_impl. now rewrite (lex_render ts H []). Qed.
 
 (** ** every atom the writer produces is lexable *)
 
@@ -143,10 +236,11 @@ Qed.
 
 Lemma escape_lexable n : symbol_name (escape_id n) = Some n -> lexable (escape_id n) = true.
 Proof.
-  intros Hs. unfold escape_id in *. destruct (is_simple_id n) eqn:Es.
-  - destruct n as [|c r]; [discriminate|]. unfold lexable. unfold is_simple_id in Es.
-    pose proof (id_chars_tok _ _ Es) as Ht. cbn [id_chars_ok] in Es.
-    destruct (id_char_ok c) eqn:Ec; cbn [negb] in Es; [|discriminate].
+  intros Hs. unfold SmtSer.escape_id in *. destruct (is_simple_id n) eqn:Es.
+  - destruct (is_simple_id_loop n Es) as [Hne Hl].
+    destruct n as [|c r]; [congruence|]. unfold lexable.
+    pose proof (id_chars_tok _ _ Hl) as Ht. cbn [id_chars_ok] in Hl.
+    destruct (id_char_ok c) eqn:Ec; cbn [negb] in Hl; [|discriminate].
     destruct (id_char_tok c Ec) as (H1 & H2 & H3 & H4). rewrite H4, H1, H2, H3. cbn [str_forall] in Ht.
     apply andb_true_iff in Ht. now rewrite (proj2 Ht).
   - change (String.append "|" (String.append n "|")) with (String c_bar (String.append n "|")) in *.
@@ -231,7 +325,7 @@ Proof.
       | a IHa b IHb w | a IHa b IHb w | a IHa b IHb w | a IHa b IHb w | a IHa b IHb w
       | a IHa b IHb w | a IHa b IHb w | a IHa b IHb c IHc
       | n iw dw | a IHa iw dw | a IHa b IHb | a IHa b IHb c IHc | a IHa b IHb c IHc ];
-    intros Hsy mb; rewrite ser_eq; apply wrap_lexable; cbn [symbols] in Hsy; cbn [ser_core consumes_bv].
+    intros Hsy mb; rewrite ser_eq; apply wrap_lexable; cbn [symbols] in Hsy; cbn [SmtSerProofs.ser_core consumes_bv].
   - rewrite sx_lexable_atom. apply escape_lexable. apply name_ok_facts. apply (Hsy n (TBV w)). now left.
   - destruct (1 <? w); [rewrite sx_lexable_atom; apply bits_lexable|]. destruct ((w =? 1) && (v =? 1)); reflexivity.
   - pose proof (IHa Hsy false) as La. destruct (is_1bit a).
@@ -278,8 +372,10 @@ Theorem parse_ser_text_lemma :
     wt e = true -> built e = true -> idx32 e = true -> table_for top e ->
     parse_expr_str top (render (flatten (ser e mb))) = POk (rt e mb) /\ equiv e (rt e mb).
 Proof.
-  intros top e mb Hwt Hbu Hix Ht. unfold parse_expr_str.
+  intros top e mb Hwt Hbu Hix Ht. unfold SmtParse.parse_expr_str.
   rewrite lex_print.
   - apply (parse_ser_lemma top e mb Hwt Hbu Hix Ht).
   - apply (ser_lexable e). intros n t Hin. destruct Ht as [Hsy _]. apply (Hsy n t Hin).
 Qed.
+
+End CV.
